@@ -30,14 +30,8 @@ def _scenario(draw, tier):
     kind = draw(st.sampled_from(["gibbs", "gibbs", "metropolis", "pca", "hmc", "hmc", "ensemble"]))
     if kind in ("gibbs", "metropolis"):
         cfg = draw(lc.sampler_config(kinds=[kind], bounds="never", max_d=3, extreme=True, gibbs_limits=False))
-        if cfg.get("arg_form") in ("f32_start", "f32_widths"):
-            # float32 inputs make the library compute proposals in float32: "a few units of rounding at the scale of the
-            # limits" would have to be read in float32 units; the tolerances here are stated in double precision
-            cfg.pop("arg_form")
     else:
         cfg = draw(lc.sampler_config(kinds=[kind], bounds="always", max_d=3, extreme=True))
-        if cfg.get("arg_form") in ("f32_start", "f32_widths"):
-            cfg.pop("arg_form")
     ops = []
     for _ in range(draw(st.integers(1, 8))):
         if kind in ("gibbs", "metropolis"):
